@@ -67,6 +67,10 @@ def oracle(case, out):
             return "closure %d ran on %d different worker runtimes" % (h, seen)
         if h in accepted:
             if outcome == 3:
+                if join_mode == 1 and not broken:
+                    return ("closure %d was stranded: its receiver had neither a result nor Canceled while "
+                            "the dispatcher was alive and nothing else woke the worker (%d closures accepted)"
+                            % (h, len(accepted)))
                 return "receiver of closure %d got neither a result nor Canceled (join %s)" % (
                     h, "had returned" if join in (1, 2) else "did not return")
             if outcome == 4:
@@ -85,7 +89,8 @@ def oracle(case, out):
     if join == 3:
         return "join returned an error"
     if join == 2 and not broken:
-        return "join re-raised a panic although no worker panicked (a task's panic must stay in the task)"
+        return ("join re-raised a panic although no worker's driver was broken: a closure's panic — inside its future "
+                "or synchronously before it returned one — must stay in its task")
     if not conc:
         if any(g > 1 for g in gauges):
             return "sequential mode: a worker ran %d closures at the same time" % max(gauges)
@@ -95,7 +100,7 @@ def oracle(case, out):
                     return "sequential mode: join returned Ok before accepted closure %d had finished" % h
     if join_mode == 1 and not broken:
         for h in accepted:
-            want = 2 if kinds[h] == 3 else 1
+            want = 2 if kinds[h] in (3, 6) else 1
             if tasks[h][0] != want:
                 return "closure %d (kind %d): receiver reports %d, expected %d" % (h, kinds[h], tasks[h][0], want)
     return None
@@ -116,9 +121,11 @@ class C18(diffcheck.DiffProp):
     thorough_release = False
     counts = {"quick": 600, "thorough": 10000}
     rule = ("worker counts 1..4 x concurrent/sequential x 1..4 dispatching threads x 0..4 closures each "
-            "(returns at once / yields 1..5 times / sleeps 1..3 ms / panics / UDP round trip / sleeps 40 ms) x join "
+            "(returns at once / yields 1..5 times / sleeps 1..3 ms / panics in its future / panics synchronously before returning a future / "
+            "UDP round trip / sleeps 40 ms / blocks the worker thread) x join "
             "immediately / after all receivers / after 3 ms x (8 %) workers whose driver cannot poll; 70 % replayed through the model, "
-            "30 % free-running dispatch; non-trivial = some closure was called; distinct = distinct cases")
+            "30 % free-running dispatch; 7 % programs around synchronously panicking closures (1..4 workers), 4 % bursts of 62..240 closures "
+            "picked up by one worker in one poll (worker blocked meanwhile) with the receivers awaited before join; non-trivial = some closure was called; distinct = distinct cases")
     trusted_base = [
         "Coq 8.16.1 kernel (coqc, full .vo build)",
         "extraction: ExtrOcamlBasic only; coq/extract/driver.ml; coq/model/RunC18.v (replay with lazily inserted worker-loop steps)",
